@@ -16,6 +16,7 @@ from typing import Iterator
 
 from .. import c08_inherit as M
 from ..core import Ctx
+from ..core import Stop
 from ..instr.sched import drive
 from ..instr.steps import StepBudgetExceeded
 from ..instr.steps import StepCounter
@@ -50,8 +51,8 @@ ASSUMPTIONS = [
     "dont_care_required)",
     "structural errors must be TemplateInheritanceError (any subclass), at get_template "
     "or at render; an unoverridden required block must be RequiredBlockError",
-    "step budget per get_template+render = 150000 function activations (typical case "
-    "uses < 4000); exceeding it or a RecursionError is a violation (no-termination)",
+    "step budget per get_template+render = 250000 function activations (typical case "
+    "uses < 4000, worst observed well-formed 45000, ill-formed 105000); exceeding it or a RecursionError is a violation (no-termination)",
     "variables read in block bodies are limited to render data, names assigned at the "
     "root's top level, root-level loop variables and include/render keyword arguments; "
     "render data is never empty (keeps clear of the unrelated `global_data or {}` defect)",
@@ -63,9 +64,19 @@ ASSUMPTIONS = [
     "within the step budget, no output' is demanded of them",
     "a template rendered directly (depth 1) is treated as a chain of one template: its "
     "own required blocks and duplicate block names must be rejected too",
+    "NOT judged: an `include`d template that has blocks but no `extends`, rendered while "
+    "a chain of depth >= 2 is being resolved.  The statement speaks of templates linked "
+    "by extends; whether such a block is resolved by the including chain is not pinned.  "
+    "Both readings (chain of one template / its block names defined by the including "
+    "chain are resolved by that chain) are modelled, all four modes must agree with one "
+    "of them, and cases where the readings differ are counted as "
+    "dont_care_standalone_include_blocks (…_participated = the engine took the second "
+    "reading).  Chains (templates WITH extends) entered through include/render are "
+    "judged strictly",
 ]
 
-BUDGET = 150_000
+BUDGET = 250_000
+MAX_BUDGET_HITS = 60  # then the shard stops: the violation is established, avoid the watchdog
 MODES = ("sync", "async", "sync+cache", "async+cache")
 DATA = {"d": "D", "yes": True, "no": False}
 
@@ -218,6 +229,9 @@ class Runner:
         self.minimised: dict[str, list[str]] = {}
         self.flip = False
         self.steps = 0
+        self.budget_hits = 0
+        self.standalone_dc = False
+        self.standalone_participated = False
 
     def close(self) -> None:
         self.sc.stop()
@@ -235,6 +249,7 @@ class Runner:
                 text = t.render(**data)
             return ("out", text)
         except StepBudgetExceeded:
+            self.budget_hits += 1
             return ("budget",)
         except RecursionError:
             return ("recursion",)
@@ -337,6 +352,17 @@ class Runner:
         obs = self.observe(M.emit(prog), entry, data)
         bad = {m: self.judge(E, a) for m, a in obs.items()}
         bad = {m: w for m, w in bad.items() if w}
+        self.standalone_dc = False
+        if _has_standalone_block_include(prog):
+            # not pinned by the property: blocks of a merely included template may or
+            # may not be resolved by the including chain; all four modes must agree
+            # with one of the two readings
+            E2 = M.expected(prog, entry, data, M.Sem(standalone="participate"))
+            if E2.sig() != E.sig() or E2.dont_care != E.dont_care:
+                self.standalone_dc = True
+                if bad and all(self.judge(E2, a) is None for a in obs.values()):
+                    self.standalone_participated = True
+                    return None, E2, obs
         if not bad:
             return None, E, obs
         m0 = next(m for m in MODES if m in bad)
@@ -351,6 +377,11 @@ class Runner:
         data = DATA if data is None else data
         what, E, obs = self.evaluate(prog, entry, data)
         ctx.ev(len(obs))
+        if self.standalone_dc:
+            ctx.count("dont_care_standalone_include_blocks")
+            if self.standalone_participated:
+                ctx.count("dont_care_standalone_include_blocks_participated")
+            self.standalone_participated = False
         ctx.mx("max:steps_ill_formed" if E.err == "recursive-nesting" else "max:steps_well_formed",
                self.steps_sync)
         ctx.count("comparisons")
@@ -383,7 +414,12 @@ class Runner:
             ctx.nt(repr(prog), entry, repr(data))
         if what is None:
             return None
-        return self.report(family, prog, entry, data, what, E, obs)
+        key = self.report(family, prog, entry, data, what, E, obs)
+        if self.budget_hits > MAX_BUDGET_HITS:
+            ctx.note(f"shard stopped after {self.budget_hits} step-budget hits ({key})")
+            ctx.truncated = True
+            raise Stop()
+        return key
 
     def report(self, family: str, prog: dict, entry: str, data: dict, what: str,
                E: M.Outcome, obs: dict) -> str:
@@ -428,12 +464,15 @@ class Runner:
             w, _, _ = self.evaluate(p, entry, data)
             return w == what
 
+        import time
+
+        t_end = time.time() + 30.0
         cur = _prune(prog, entry)
         progress = True
-        while progress and tests < max_tests:
+        while progress and tests < max_tests and time.time() < t_end:
             progress = False
             for cand in _variants(cur, entry):
-                if tests >= max_tests:
+                if tests >= max_tests or time.time() > t_end:
                     break
                 cand = _prune(cand, entry)
                 if _size(cand) >= _size(cur):
@@ -443,6 +482,15 @@ class Runner:
                     progress = True
                     break
         return cur
+
+
+def _has_standalone_block_include(prog: dict) -> bool:
+    for items in prog.values():
+        for it in M.includes_of(items):
+            tgt = prog.get(it[2])
+            if it[1] == "include" and tgt is not None and not M.extends_of(tgt) and M.block_defs(tgt):
+                return True
+    return False
 
 
 def _size(prog: dict) -> int:
@@ -949,10 +997,10 @@ FAMILIES = {"exh": _fam_exh, "ctl": _fam_ctl, "struct": _fam_struct, "cyc": _fam
 def shards(tier: str, seed: int) -> list[dict[str, Any]]:  # noqa: ARG001
     specs: list[dict[str, Any]] = []
     q = tier == "quick"
-    n = 7 if q else 16
+    n = 8 if q else 16
     for i in range(n):
         specs.append({"kind": "exh", "i": i, "n": n})
-    n = 3 if q else 8
+    n = 2 if q else 8
     for i in range(n):
         specs.append({"kind": "entry", "i": i, "n": n})
     n = 2 if q else 4
@@ -964,7 +1012,7 @@ def shards(tier: str, seed: int) -> list[dict[str, Any]]:  # noqa: ARG001
     specs.append({"kind": "cyc", "i": 0, "n": 1})
     n = 1 if q else 12
     for i in range(n):
-        specs.append({"kind": "samp", "i": i, "n": n, "count": 3000 if q else 30000})
+        specs.append({"kind": "samp", "i": i, "n": n, "count": 2500 if q else 30000})
     if not q:
         for i in range(32):
             specs.append({"kind": "exh4", "i": i, "n": 32})
